@@ -189,6 +189,12 @@ def urlEncoded (limit : Nat) (d : Decl) (items : List Item) : Res :=
   | .len l => if l > limit then .overflowKnown l else ofOutcome (collect limit items)
   | .absent => ofOutcome (collect limit items)
 
+/-- `JsonBody::new(..)` polled without `.limit()` (public type): the built-in limit `dflt` applies
+to the loop, but the declared length is *not* looked at (json.rs:352-354: "the content-length is
+not checked against limit of json config here") -/
+def jsonBodyNew (dflt : Nat) (_d : Decl) (items : List Item) : Res :=
+  ofOutcome (collect dflt items)
+
 /-- `MessageBody::size()` -/
 inductive BodySize where
   | none
